@@ -106,65 +106,71 @@ func (ld *Loaded) staticScans(id string) []*FuncResult {
 		if !has || fd.Kind != "immutable" {
 			continue
 		}
-		ctors := map[string]bool{}
-		for _, c := range strings.Split(fd.Arg, ",") {
-			if c = strings.TrimSpace(c); c != "" {
-				ctors[qualifyFuncName(c, fd.Pkg)] = true
+		out = append(out, ld.immutableScan(fd))
+	}
+	out = append(out, ld.coverageScans(id)...)
+	return out
+}
+
+// immutableScan: the field is stored only inside the listed constructors and its address does not
+// escape elsewhere.
+func (ld *Loaded) immutableScan(fd *FieldDecl) *FuncResult {
+	ctors := map[string]bool{}
+	for _, c := range strings.Split(fd.Arg, ",") {
+		if c = strings.TrimSpace(c); c != "" {
+			ctors[qualifyFuncName(c, fd.Pkg)] = true
+		}
+	}
+	tname := fd.Pkg + "." + fd.Type
+	var bad []string
+	nStores := 0
+	var keys []string
+	for k := range ld.fnByKey {
+		keys = append(keys, k)
+	}
+	sort.Strings(keys)
+	for _, k := range keys {
+		for _, fn := range ld.fnByKey[k] {
+			root := fn
+			for root.Parent() != nil {
+				root = root.Parent()
 			}
-		}
-		tname := fd.Pkg + "." + fd.Type
-		var bad []string
-		nStores := 0
-		var keys []string
-		for k := range ld.fnByKey {
-			keys = append(keys, k)
-		}
-		sort.Strings(keys)
-		for _, k := range keys {
-			for _, fn := range ld.fnByKey[k] {
-				root := fn
-				for root.Parent() != nil {
-					root = root.Parent()
-				}
-				for _, b := range fn.Blocks {
-					for _, in := range b.Instrs {
-						st, ok := in.(*ssa.Store)
-						if !ok {
-							continue
-						}
-						fa, ok := st.Addr.(*ssa.FieldAddr)
-						if !ok {
-							continue
-						}
-						stt := deref(fa.X.Type())
-						if namedStructKey(stt) != tname {
-							continue
-						}
-						if stt.Underlying().(*types.Struct).Field(fa.Field).Name() != fd.Field {
-							continue
-						}
-						nStores++
-						if !ctors[fnKey(root)] {
-							bad = append(bad, fmt.Sprintf("%s: %s", fn, in))
-						}
+			for _, b := range fn.Blocks {
+				for _, in := range b.Instrs {
+					st, ok := in.(*ssa.Store)
+					if !ok {
+						continue
+					}
+					fa, ok := st.Addr.(*ssa.FieldAddr)
+					if !ok {
+						continue
+					}
+					stt := deref(fa.X.Type())
+					if namedStructKey(stt) != tname {
+						continue
+					}
+					if stt.Underlying().(*types.Struct).Field(fa.Field).Name() != fd.Field {
+						continue
+					}
+					nStores++
+					if !ctors[fnKey(root)] {
+						bad = append(bad, fmt.Sprintf("%s: %s", fn, in))
 					}
 				}
 			}
 		}
-		for _, a := range ld.accessesOf(tname, fd.Field) {
-			if a.other && !ctors[fnKey(rootFn(a.fn))] {
-				bad = append(bad, fmt.Sprintf("address of the field escapes in %s: %s", a.fn.RelString(typesPkgOf(a.fn)), a.in))
-			}
-		}
-		o := &Obligation{Name: shortStem(fd.Pkg, fd.Type) + "#frame:" + fd.Field + ".immutable", Kind: "frame", Static: true, StaticOK: len(bad) == 0, Props: fd.Props}
-		o.Detail = fmt.Sprintf("field %s.%s is stored only in %s (%d stores found)", fd.Type, fd.Field, fd.Arg, nStores)
-		if len(bad) > 0 {
-			o.Detail = fmt.Sprintf("field %s.%s declared immutable is stored outside its constructors: %s", fd.Type, fd.Field, strings.Join(bad, "; "))
-		}
-		out = append(out, &FuncResult{Key: "static:" + o.Name, Obls: []*Obligation{o}})
 	}
-	out = append(out, ld.coverageScans(id)...)
-	return out
+	for _, a := range ld.accessesOf(tname, fd.Field) {
+		if a.other && !ctors[fnKey(rootFn(a.fn))] {
+			bad = append(bad, fmt.Sprintf("address of the field escapes in %s: %s", a.fn.RelString(typesPkgOf(a.fn)), a.in))
+		}
+	}
+	o := &Obligation{Name: shortStem(fd.Pkg, fd.Type) + "#frame:" + fd.Field + ".immutable", Kind: "frame", Static: true, StaticOK: len(bad) == 0, Props: fd.Props}
+	o.Detail = fmt.Sprintf("field %s.%s is stored only in %s (%d stores found)", fd.Type, fd.Field, fd.Arg, nStores)
+	if len(bad) > 0 {
+		o.Detail = fmt.Sprintf("field %s.%s declared immutable is stored outside its constructors: %s", fd.Type, fd.Field, strings.Join(bad, "; "))
+	}
+	return &FuncResult{Key: "static:" + o.Name, Obls: []*Obligation{o}}
 }
 
 // promotedScan: the listed methods of *T are promoted from the named embedded field
@@ -578,7 +584,7 @@ func (ld *Loaded) methodsScan(fd *FieldDecl) *FuncResult {
 	for _, m := range strings.Fields(fd.Arg) {
 		want[m] = true
 	}
-	var bad []string
+	var bad, extra []string
 	found := false
 	for _, p := range ld.prog.AllPackages() {
 		if p.Pkg.Path() != fd.Pkg {
@@ -598,8 +604,15 @@ func (ld *Loaded) methodsScan(fd *FieldDecl) *FuncResult {
 			have[named.Method(i).Name()] = true
 			if !want[named.Method(i).Name()] && named.Method(i).Exported() {
 				// (an unexported method cannot be reached through an interface of another package and
-				// is executed in place where it is called)
-				bad = append(bad, "method "+named.Method(i).Name()+" is not listed (no contract covers it)")
+				// is executed in place where it is called.) An exported method that is not listed has
+				// no contract; it matters only if existing code can reach it: through an interface the
+				// code dispatches on (type assertions and switches of the repository, the optional
+				// interfaces library code asserts for), or by shadowing a promoted method.
+				if why := ld.methodReachable(named, named.Method(i).Name()); why != "" {
+					bad = append(bad, "method "+named.Method(i).Name()+" is not listed (no contract covers it) and "+why)
+				} else {
+					extra = append(extra, named.Method(i).Name())
+				}
 			}
 		}
 		for m := range want {
@@ -615,6 +628,9 @@ func (ld *Loaded) methodsScan(fd *FieldDecl) *FuncResult {
 	sort.Strings(bad)
 	o.StaticOK = len(bad) == 0
 	o.Detail = fmt.Sprintf("the declared methods of %s are exactly: %s", fd.Type, fd.Arg)
+	if len(extra) > 0 {
+		o.Detail += "; further methods that no existing code can reach through an interface: " + strings.Join(extra, " ")
+	}
 	if len(bad) > 0 {
 		o.Detail += "; FAILS: " + strings.Join(bad, " | ")
 	}
@@ -782,7 +798,24 @@ func (ld *Loaded) typesCoveredScan(fd *FieldDecl) *FuncResult {
 	sort.Strings(names)
 	for _, n := range names {
 		if !declared[n] {
-			bad = append(bad, fmt.Sprintf("type %s (methods %s) has no 'methods' clause", n, strings.Join(sets[n], " ")))
+			// a type nobody declared matters only if its methods can be reached through an interface
+			// existing code dispatches on
+			var reach []string
+			for _, p := range ld.prog.AllPackages() {
+				if p.Pkg.Path() != fd.Pkg {
+					continue
+				}
+				if named, ok := p.Pkg.Scope().Lookup(n).Type().(*types.Named); ok {
+					for _, m := range sets[n] {
+						if why := ld.methodReachable(named, m); why != "" {
+							reach = append(reach, m+" "+why)
+						}
+					}
+				}
+			}
+			if len(reach) > 0 {
+				bad = append(bad, fmt.Sprintf("type %s (methods %s) has no 'methods' clause: %s", n, strings.Join(sets[n], " "), strings.Join(reach, "; ")))
+			}
 		}
 	}
 	o.StaticOK = len(bad) == 0
@@ -791,4 +824,114 @@ func (ld *Loaded) typesCoveredScan(fd *FieldDecl) *FuncResult {
 		o.Detail += "; FAILS: " + strings.Join(bad, " | ")
 	}
 	return &FuncResult{Key: "static:" + o.Name, Obls: []*Obligation{o}}
+}
+
+// dispatchInterfaces: the interfaces code decides on at run time - asserted types of the type
+// assertions and type switches in the repository's non-test code, and the optional interfaces
+// library code is known to assert for.
+var dispatchCache []*types.Interface
+var dispatchNames []string
+
+func (ld *Loaded) dispatchInterfaces() ([]*types.Interface, []string) {
+	if dispatchCache != nil {
+		return dispatchCache, dispatchNames
+	}
+	seen := map[string]bool{}
+	add := func(t types.Type, name string) {
+		it, ok := t.Underlying().(*types.Interface)
+		if !ok || it.NumMethods() == 0 || seen[name] {
+			return
+		}
+		seen[name] = true
+		dispatchCache = append(dispatchCache, it)
+		dispatchNames = append(dispatchNames, name)
+	}
+	for _, fns := range ld.fnByKey {
+		for _, fn := range fns {
+			if tp := typesPkgOf(fn); tp == nil || !strings.HasPrefix(tp.Path(), "github.com/go-netty/") {
+				continue
+			}
+			for _, b := range fn.Blocks {
+				for _, in := range b.Instrs {
+					if ta, ok := in.(*ssa.TypeAssert); ok {
+						add(ta.AssertedType, types.TypeString(ta.AssertedType, nil))
+					}
+				}
+			}
+		}
+	}
+	// optional interfaces of the standard library (io.Copy, bufio, fmt's %w, errors.Is/As, net)
+	for _, p := range ld.prog.AllPackages() {
+		var names []string
+		switch p.Pkg.Path() {
+		case "io":
+			names = []string{"WriterTo", "ReaderFrom", "ByteReader", "ByteScanner", "ByteWriter", "RuneReader", "StringWriter", "Closer", "Seeker", "ReaderAt", "WriterAt", "Reader", "Writer"}
+		case "net":
+			names = []string{"Error"}
+		case "net/http":
+			names = []string{"Flusher", "Hijacker"}
+		case "fmt":
+			names = []string{"Formatter"}
+		}
+		for _, n := range names {
+			if o := p.Pkg.Scope().Lookup(n); o != nil {
+				add(o.Type(), p.Pkg.Path()+"."+n)
+			}
+		}
+	}
+	mk := func(name string, params, results []*types.Var) {
+		sig := types.NewSignatureType(nil, nil, nil, types.NewTuple(params...), types.NewTuple(results...), false)
+		it := types.NewInterfaceType([]*types.Func{types.NewFunc(0, nil, name, sig)}, nil)
+		it.Complete()
+		add(it, "interface{ "+name+" }")
+	}
+	errT := types.Universe.Lookup("error").Type()
+	boolT := types.Typ[types.Bool]
+	v := func(t types.Type) *types.Var { return types.NewVar(0, nil, "", t) }
+	add(errT, "error")
+	mk("Unwrap", nil, []*types.Var{v(errT)})
+	mk("Is", []*types.Var{v(errT)}, []*types.Var{v(boolT)})
+	mk("As", []*types.Var{v(types.NewInterfaceType(nil, nil))}, []*types.Var{v(boolT)})
+	mk("Timeout", nil, []*types.Var{v(boolT)})
+	mk("Temporary", nil, []*types.Var{v(boolT)})
+	mk("Flush", nil, []*types.Var{v(errT)})
+	mk("Len", nil, []*types.Var{v(types.Typ[types.Int])})
+	return dispatchCache, dispatchNames
+}
+
+// methodReachable: can existing code reach method m of the named type without naming it - because
+// with m the type (or its pointer) satisfies an interface code dispatches on, or because m shadows
+// a method promoted from an embedded field? "" if not.
+func (ld *Loaded) methodReachable(named *types.Named, m string) string {
+	its, names := ld.dispatchInterfaces()
+	for i, it := range its {
+		needs := false
+		for k := 0; k < it.NumMethods(); k++ {
+			if it.Method(k).Name() == m {
+				needs = true
+			}
+		}
+		if needs && (types.Implements(named, it) || types.Implements(types.NewPointer(named), it)) {
+			return "the type satisfies " + names[i] + " with it, which code dispatches on"
+		}
+	}
+	if st, ok := named.Underlying().(*types.Struct); ok {
+		for i := 0; i < st.NumFields(); i++ {
+			if !st.Field(i).Embedded() {
+				continue
+			}
+			ms := types.NewMethodSet(st.Field(i).Type())
+			if _, isPtr := st.Field(i).Type().(*types.Pointer); !isPtr {
+				if _, isIface := st.Field(i).Type().Underlying().(*types.Interface); !isIface {
+					ms = types.NewMethodSet(types.NewPointer(st.Field(i).Type()))
+				}
+			}
+			for k := 0; k < ms.Len(); k++ {
+				if ms.At(k).Obj().Name() == m {
+					return "it shadows the method promoted from the embedded field " + st.Field(i).Name()
+				}
+			}
+		}
+	}
+	return ""
 }
